@@ -62,6 +62,26 @@ HEADER = ("From DD Require Import Base.PyStr Base.Value Diff.Tree Diff.DiffModel
 
 E = C11.E
 Decimal = decimal.Decimal
+import enum as _enum
+
+
+class E2(_enum.Enum):       # a second class sharing E's values (A=1, B="x", C=2.5, D="X") plus 2
+    A = 1
+    B = "x"
+    C = 2.5
+    D = "X"
+    Z = 2
+
+
+class E3(_enum.Enum):       # a third one: same values under other names
+    P = 1
+    Q = "X"
+    R = 2
+    S = "x"
+
+
+ENUMS = (E, E2, E3)
+Enum = _enum.Enum
 
 # --------------------------------------------------------------------------
 # option sets
@@ -173,11 +193,13 @@ def lit(v):
         return "set([" + ", ".join(lit(x) for x in v) + "])"
     if isinstance(v, Decimal):
         return "Decimal(%r)" % str(v)
+    if isinstance(v, (E2, E3)):
+        return "%s.%s" % (type(v).__name__, v.name)
     return C11.lit(v)
 
 
 def unlit(s):
-    return eval(s, {"__builtins__": {"set": set, "frozenset": frozenset, "float": float}, "E": E, "dt": C11._dt, "Decimal": Decimal,
+    return eval(s, {"__builtins__": {"set": set, "frozenset": frozenset, "float": float}, "E": E, "E2": E2, "E3": E3, "dt": C11._dt, "Decimal": Decimal,
                     "True": True, "False": False, "None": None})
 
 
@@ -256,7 +278,7 @@ def hashables(v, acc):
             hashables(x, acc)
         if isinstance(v, frozenset):
             acc.append(v)
-    elif isinstance(v, C11.E):
+    elif isinstance(v, Enum):
         # without use_enum_value an Enum member is hashed as an object: its attributes
         # (value, name, _sort_order_ = 0, 1, ...) go through the same memo table
         acc.extend([v, v.value, v.name, getattr(v, "_sort_order_", 0)])
@@ -591,11 +613,11 @@ FEATURES = [
      lambda t1, t2, sp: (rekey(t1, lambda k: isinstance(k, datetime.datetime), _dtkey(sp)),
                          rekey(t2, lambda k: isinstance(k, datetime.datetime), _dtkey(sp)), sp)),
     ("C12-enum-dict-keys",
-     lambda t1, t2, sp, c: sp["enum"] and any(isinstance(k, E) for k in all_keys2(t1, t2)),
-     both_keys(lambda k: isinstance(k, E), lambda k: "enum<%s>" % k.name)),
+     lambda t1, t2, sp, c: sp["enum"] and any(isinstance(k, Enum) for k in all_keys2(t1, t2)),
+     both_keys(lambda k: isinstance(k, Enum), lambda k: "enum<%s.%s>" % (type(k).__name__, k.name))),
     ("C12-enum-distance-TypeError",
-     lambda t1, t2, sp, c: sp["enum"] and any(isinstance(a, E) for a in all_atoms2(t1, t2)),
-     both(lambda a: "enum<%s>" % a.name if isinstance(a, E) else a)),
+     lambda t1, t2, sp, c: sp["enum"] and any(isinstance(a, Enum) for a in all_atoms2(t1, t2)),
+     both(lambda a: "enum<%s.%s>" % (type(a).__name__, a.name) if isinstance(a, Enum) else a)),
     ("C12-number-vs-datetime-TypeError",
      lambda t1, t2, sp, c: sp["numty"] and any(isinstance(a, (datetime.datetime, datetime.date, datetime.time)) for a in all_atoms2(t1, t2)),
      both(lambda a: "dt<%s>" % a.isoformat() if isinstance(a, (datetime.datetime, datetime.date, datetime.time)) else a)),
@@ -713,8 +735,60 @@ def edit_once(rng, v):
     return v, None
 
 
+def to_enum(rng, classes, p, keys_too):
+    """an atom map sending a plain value to a member (of one of the classes) with that value"""
+    def fa(a):
+        if isinstance(a, (bool, bytes)) or a is None or isinstance(a, Enum) or rng.random() >= p:
+            return a
+        cands = [m for cl in classes for m in cl if type(m.value) is type(a) and m.value == a]
+        return rng.choice(cands) if cands else a
+
+    def fk(k):
+        return fa(k) if keys_too else k
+    return fa, fk
+
+
+def gen_enum_cross(rng, sp):
+    """members of DIFFERENT Enum classes with equal (or merely option-equal) values facing each
+    other: at the root, as dict values, nested, as list items, occasionally as dict keys"""
+    base = {1: [1, 1, "x", 2, 2.5, "X"], 2: ["x", "X", 1, 2, 2.5, "a", 3]}
+    shape = rng.choice(["root", "dict", "list", "nested", "gen", "gen"])
+    atom = lambda: rng.choice([1, 1, "x", "X", 2, 2.5, "a", 7])  # noqa
+    if shape == "root":
+        v = atom()
+    elif shape == "dict":
+        v = {k: atom() for k in rng.sample(["k", "a", "b", "K", 3], rng.randint(1, 3))}
+    elif shape == "list":
+        v = [atom() for _ in range(rng.randint(1, 4))]
+    elif shape == "nested":
+        v = {"k": [atom(), {"q": atom(), "r": (atom(), atom())}], "s": {atom(), 9}}
+    else:
+        v = C11.gen_value(rng, rng.choice([1, 2, 3]), 3, True, True, False)
+        v = vmap(v, lambda a: atom() if (isinstance(a, (int, float, str)) and not isinstance(a, bool) and rng.random() < 0.5) else a,
+                 lambda k: k)
+    log = []
+    w = C11.normalise(rng, v, c11_spec(dict(sp, enum=False)), rich=False, p=0.4, log=log) if rng.random() < 0.6 else copy.deepcopy(v)
+    if rng.random() < 0.5:
+        w = C05.rebuild(w, rng)
+    keys_too = rng.random() < 0.25
+    try:
+        fa1, fk1 = to_enum(rng, [E], 0.7, keys_too)
+        fa2, fk2 = to_enum(rng, [E2, E3], 0.7, keys_too)
+        t1, t2 = vmap(v, fa1, fk1), vmap(w, fa2, fk2)
+    except Exception:  # noqa (a substitution that merges keys / set members)
+        t1, t2 = v, w
+    if rng.random() < 0.25:
+        t2, k = edit_once(rng, t2)
+        log.append(("edit", k))
+    if rng.random() < 0.5:
+        t1, t2 = t2, t1
+    return t1, t2, log
+
+
 def gen_case_values(rng, fam, sp, rich):
     """(t1, t2, log)"""
+    if fam == "enumx":
+        return gen_enum_cross(rng, sp)
     depth = rng.choice([1, 2, 2, 3])
     if fam == "records":
         t1 = C05.big_near_dups(rng)
@@ -799,6 +873,12 @@ FIXED_RICH = [
     ({C11._dt(2024, 1, 1, 10, 20, 30, 0): 1}, {C11._dt(2024, 1, 1, 8, 20, 30, 0, 0): 1}, _s(tz=120)),
     (-2, C11._dt(2024, 5, 8, 15, 4, 33, 0), _s(numty=True)), ({"k": 1.5}, {"k": C11._dt(2024, 5, 8, 15, 4, 33, 0, 0)}, _s(numty=True)),
     ([[1, 2]], [[1, {b"k": 1}]], _s()),
+    (E.A, E2.A, _s(enum=True)), ({"k": E.A}, {"k": E2.A}, _s(enum=True)), ([E.A], [E2.A], _s(enum=True)), ({"k": [E.A, 5]}, {"k": [5, E3.P]}, _s(enum=True)),
+    ({"k": {"q": (E.C, E.B)}}, {"k": {"q": (E2.C, E3.S)}}, _s(enum=True)), (E.A, E2.Z, _s(enum=True)), ({"k": E.A}, {"k": E3.R}, _s(enum=True)),
+    (E.B, E3.Q, _s(enum=True, case=True)), ({"k": E.D}, {"k": E2.B}, _s(enum=True, case=True)), (E.B, E3.Q, _s(enum=True)),
+    (E.A, E2.A, _s(enum=True, numty=True)), ({"k": E.C}, {"k": E2.C}, _s(enum=True, sig=0)), ({"k": E2.Z}, {"k": E.C}, _s(enum=True, sig=0, numty=True)),
+    ({"k": E.B}, {"k": E2.B}, _s(enum=True, strty=True)), ({E.A: 1}, {E2.A: 1}, _s(enum=True)), ({E.A}, {E2.A}, _s(enum=True)),
+    (E.A, E2.A, _s()), ({"k": E.A}, {"k": E2.A}, _s()),
     (E.A, 1, _s(enum=True)), ([E.A], [1], _s(enum=True)), ({"k": E.A}, {"k": 1}, _s(enum=True)), ({E.A: 1}, {1: 1}, _s(enum=True)),
     ([E.A], [E.B], _s(enum=True)), (E.B, "x", _s(enum=True)), (E.B, "X", _s(enum=True, case=True)),
 ]
@@ -1038,6 +1118,11 @@ def run(ctx):
             fam = ["alt", "near", "rand", "alt"][i % 4]
             t1, t2, _log = gen_case_values(rng, fam, sp, rich=True)
             rich.append((fam, t1, t2, sp, rng.random() < 0.5, False))
+    mods = [mk(), mk(case=True), mk(strty=True), mk(numty=True), mk(sig=0), mk(sig=2), mk(case=True, numty=True), mk(trunc="minute"), mk(sig=1, note=True)]
+    for i in range(600 if ctx.thorough else 110):
+        sp = dict(mods[i % len(mods)], enum=True)
+        t1, t2, _log = gen_enum_cross(rng, sp)
+        rich.append(("enumx", t1, t2, sp, rng.random() < 0.5, False))
     for fam, t1, t2, sp, rep, _w in jobs[:3] + jobs[2 * len(FIXED):2 * len(FIXED) + 3]:
         ctx.sample({"family": fam, "t1": lit(t1), "t2": lit(t2), "options": name_of(sp), "report_repetition": rep})
     with mp.get_context("fork").Pool(core.NCPU) as pool:
